@@ -1026,3 +1026,16 @@ func (m *MW) StepInternal() {
 		}
 	})
 }
+
+// TakeFor returns proofs worth at least need plus their own input fee, or nil.
+func (m *MW) TakeFor(mint string, need uint64) []*HProof {
+	ins := m.User.Take(mint, need)
+	for ins != nil && SumH(ins) < need+m.feeFor(mint, ins) {
+		more := m.User.Take(mint, SumH(ins)+1)
+		if more == nil || SumH(more) <= SumH(ins) {
+			return nil
+		}
+		ins = more
+	}
+	return ins
+}
